@@ -1,5 +1,7 @@
 import Heph.Proofs.MutationEq
 import Heph.Proofs.MutationMap
+import Heph.Proofs.MutationFeasible
+import Heph.Proofs.MutationPick
 import Heph.Spec.Mutation
 /-!
 # C03 — type erasure only removes inferable type information (partial)
@@ -117,5 +119,146 @@ example : erasureDiff demo demo = some [] := by decide +kernel
 /-- a change of a name, and a change of a recorded type, are not erasures -/
 example : erasureDiff demo { demo with lang := "java" } = none := by decide +kernel
 example : erasureDiff demo (mapProg { SlotFn.id with var := fun _ vt _ => (vt, none) } demo) = none := by decide +kernel
+
+
+/-! ## the feasibility test on the type graph -/
+
+/-- **Feasibility = the reachability criterion.**  `is_combination_feasible(g, C)` answers `True`
+    exactly when step 1 (removing the declared type information of `C`) succeeds with a graph
+    `g'` in which (`DeclsOK`) every omitted declaration reaches — in one or more steps, textbook
+    reachability `ReachAny` — only type-carrying nodes of its own type, and (`InstsOK`) every type
+    variable of an omitted constructor call has an assigned type and reaches a `TypeNode` of that
+    type whose parent is not an omitted declaration.  Proved through C19's `dfs_correct`; holds
+    for every graph (no fuel hypothesis: the traversal never runs out). -/
+theorem feasible_spec (nodes : List TGNode) (g : Edges) (c : List Nat) :
+    feasible nodes g c = .ok true ↔
+      ∃ g', removeDeclared nodes g c = .ok g' ∧ DeclsOK nodes g' c ∧ InstsOK nodes g' c := by
+  unfold feasible feasibleG
+  cases hr : removeDeclared nodes g c with
+  | error e => simp
+  | ok g' =>
+    simp only
+    constructor
+    · intro h
+      refine ⟨g', rfl, ?_⟩
+      apply (verify_spec nodes g' c).1
+      cases hvv : verify nodes g' c with
+      | error e => rw [hvv] at h; simp at h
+      | ok b =>
+        rw [hvv] at h
+        simp only [Except.ok.injEq] at h
+        rw [h]
+    · rintro ⟨g'', hg, hd, hi⟩
+      cases hg
+      rw [(verify_spec nodes g' c).2 ⟨hd, hi⟩]
+
+/-- a small graph: the declaration `x : A` (node 0) with its declared annotation (node 1, a
+    `TypeNode` A) and the type inferred from its initialiser (node 2: A in `gA`, B in `gB`) -/
+def gNodes (inferred : Ty) : List TGNode :=
+  [{ kind := .declN, nodeId := "global/f/x", t := .ty tA },
+   { kind := .typeN, nodeId := "global/f/x/A", parentId := some "global/f/x", t := .ty tA },
+   { kind := .typeN, nodeId := "global/f/x/new", parentId := some "global/f/x", t := .ty inferred }]
+def gEdges : Edges := [(0, [(1, true), (2, false)])]
+
+def okTrue : Except FErr Bool → Bool
+  | .ok true => true
+  | _ => false
+def okFalse : Except FErr Bool → Bool
+  | .ok false => true
+  | _ => false
+
+/-- omitting the annotation of `x` is feasible when the initialiser has the declared type … -/
+example : okTrue (feasible (gNodes tA) gEdges [0]) = true := by decide +kernel
+/-- … and infeasible when the initialiser has another type (`x : A = new B()` upcast) -/
+example : okFalse (feasible (gNodes (.simple "B" [tA])) gEdges [0]) = true := by decide +kernel
+/-- a node that is not a key of the graph: the `assert` of the code -/
+example : (match feasible (gNodes tA) gEdges [1] with | .error e => decide (e = .assertionError) | _ => false) = true := by
+  decide +kernel
+
+/-! ## the choice of the combination -/
+
+/-- **First feasible, largest first.**  When `TypeErasure.visit_func_decl` (model: `pick`) applies
+    a combination `c`: after the pre-filter on the shared graph left `g'` and kept the nodes
+    `r.kept`, `c` occurs in the enumeration `allCombos r.kept` (= `itertools.combinations` of
+    sizes `n, n-1, …, 1`, each a sub-list of the kept nodes), `c` is feasible on (a copy of) `g'`,
+    every combination enumerated before it is infeasible, and fewer than `max_combinations + 1`
+    combinations precede it. -/
+theorem pick_first_feasible {nodes : List TGNode} {g : Edges} {om : List Nat} {max : Nat}
+    {r : PickRes} {c : List Nat} (h : pick nodes g om max = .ok r) (hc : r.chosen = some c) :
+    ∃ g' singles, prefilter nodes g om [] [] = .ok (g', r.kept, singles) ∧
+      ∃ pre post, allCombos r.kept = pre ++ c :: post ∧
+        feasible nodes g' c = .ok true ∧ (∀ c' ∈ pre, feasible nodes g' c' = .ok false) ∧
+        pre.length < budgetOf max r.kept.length ∧ c.Sublist r.kept ∧ c ≠ [] := by
+  unfold pick at h
+  cases hp : prefilter nodes g om [] [] with
+  | error e => rw [hp] at h; cases h
+  | ok res =>
+    obtain ⟨g', kept, singles⟩ := res
+    rw [hp] at h
+    simp only at h
+    rw [searchFrom_eq] at h
+    cases hs : firstOk (feasible nodes g') (combosFrom kept.length kept) (budgetOf max kept.length) 0 with
+    | err e => rw [hs] at h; cases h
+    | next b k =>
+      rw [hs] at h
+      simp only [Except.ok.injEq] at h
+      subst h
+      cases hc
+    | cutoff k =>
+      rw [hs] at h
+      simp only [Except.ok.injEq] at h
+      subst h
+      cases hc
+    | found c' k =>
+      rw [hs] at h
+      simp only [Except.ok.injEq] at h
+      subst h
+      simp only [Option.some.injEq] at hc
+      subst hc
+      obtain ⟨pre, post, hl, hf, hpre, _, hb⟩ := firstOk_found _ _ _ _ _ _ hs
+      have hmem : c' ∈ combosFrom kept.length kept := by rw [hl]; simp
+      obtain ⟨hsub, hlen, _⟩ := combosFrom_sublist _ _ _ hmem
+      refine ⟨g', singles, rfl, pre, post, hl, hf, hpre, hb, hsub, ?_⟩
+      intro he
+      rw [he] at hlen
+      simp at hlen
+
+/-- when nothing is applied (and the search was not cut off), no combination of the kept nodes
+    is feasible -/
+theorem pick_none_infeasible {nodes : List TGNode} {g : Edges} {om : List Nat} {max : Nat}
+    {r : PickRes} (h : pick nodes g om max = .ok r) (hc : r.chosen = none) (hcut : r.cutoff = false) :
+    ∃ g' singles, prefilter nodes g om [] [] = .ok (g', r.kept, singles) ∧
+      ∀ c ∈ allCombos r.kept, feasible nodes g' c = .ok false := by
+  unfold pick at h
+  cases hp : prefilter nodes g om [] [] with
+  | error e => rw [hp] at h; cases h
+  | ok res =>
+    obtain ⟨g', kept, singles⟩ := res
+    rw [hp] at h
+    simp only at h
+    rw [searchFrom_eq] at h
+    cases hs : firstOk (feasible nodes g') (combosFrom kept.length kept) (budgetOf max kept.length) 0 with
+    | err e => rw [hs] at h; cases h
+    | next b k =>
+      rw [hs] at h
+      simp only [Except.ok.injEq] at h
+      subst h
+      exact ⟨g', singles, rfl, (firstOk_next _ _ _ _ _ _ hs).1⟩
+    | cutoff k =>
+      rw [hs] at h
+      simp only [Except.ok.injEq] at h
+      subst h
+      cases hcut
+    | found c' k =>
+      rw [hs] at h
+      simp only [Except.ok.injEq] at h
+      subst h
+      cases hc
+
+/-- on the small graph the search applies the one-node combination at the first question -/
+example : (match pick (gNodes tA) gEdges [0] 500000 with
+           | .ok r => r.chosen == some [0] && r.asked == 1 && r.kept == [0]
+           | _ => false) = true := by decide +kernel
+example : allCombos [1, 2, 3] = [[1, 2, 3], [1, 2], [1, 3], [2, 3], [1], [2], [3]] := by decide
 
 end Heph.Props.C03
